@@ -715,15 +715,15 @@ func Parse(block []rune, pos int) (pt ParsedTokens, syntaxHighlighted string) {
 				ansiReset(block[i])
 				switch block[i] {
 				case 'r':
-					*pt.pop = "\r"
+					*pt.pop += "\r"
 				case 'n':
-					*pt.pop = "\n"
+					*pt.pop += "\n"
 				case 's':
-					*pt.pop = " "
+					*pt.pop += " "
 				case 't':
-					*pt.pop = "\t"
+					*pt.pop += "\t"
 				default:
-					*pt.pop = string(block[i])
+					*pt.pop += string(block[i])
 				}
 			case readFunc:
 				*pt.pop += string(block[i])
